@@ -160,6 +160,39 @@ def run(case):
                 except Exception as e:
                     fails.append(f"world_to_pixel_values of its own output raised {type(e).__name__}: {str(e)[:100]}")
                     break
+        # world values that no array element has: one 1-D extra coordinate taken one pixel further along its axis
+        # than everything else (each table in turn, not only the first on an axis) - they must be refused, not
+        # answered with the position the other coordinates imply
+        invertible = not (isinstance(W.low_level(_base(pll)), W.ProbeWCS) and W.low_level(_base(pll)).Ainv is None)
+        if ell is not None and invertible and not fails:
+            ecorr = np.asarray(ell.axis_correlation_matrix, dtype=bool)
+            p0 = [1.0 if s >= 3 else 0.0 for s in shape[::-1]]
+            w0 = W.p2w(cll, p0)
+            n_probe = 0
+            for j in range(ell.world_n_dim):
+                ks = [k for k in range(ell.pixel_n_dim) if ecorr[j, k]]
+                if len(ks) != 1 or ecorr[:, ks[0]].sum() != 1 or shape[::-1][mapping[ks[0]]] < 3 or not np.all(np.isfinite(w0)):
+                    continue
+                q = [p0[k] for k in mapping]
+                q[ks[0]] += 1.0
+                moved = W.p2w(ell, q)[j]
+                if not np.isfinite(moved) or moved == w0[pll.world_n_dim + j]:
+                    continue
+                bad = list(w0); bad[pll.world_n_dim + j] = moved
+                n_probe += 1
+                try:
+                    r = cll.world_to_pixel_values(*bad)
+                    r = [float(np.asarray(x)) for x in (r if isinstance(r, (tuple, list)) else [r])]
+                    fails.append(f"world values {bad} (extra coordinate {types[pll.world_n_dim + j]} taken one pixel further than the rest) "
+                                 f"belong to no element but were converted to pixel {r} instead of being refused")
+                    break
+                except ValueError:
+                    pass
+                except Exception as e:
+                    fails.append(f"inconsistent world values raised {type(e).__name__} instead of ValueError: {str(e)[:80]}")
+                    break
+            if n_probe:
+                tags.append("inconsistent-world-probe")
         # correlation matrix vs finite differences
         corr = np.asarray(cll.axis_correlation_matrix)
         if corr.shape != (cll.world_n_dim, nd):
